@@ -224,9 +224,42 @@ fn random_ctx(rng: &mut Rng, size: usize) -> (Context, Vec<Node>) {
     (ctx, outs)
 }
 
+/// allocator events (Trace_Alloc.tla): one file per register budget under $VERIF_ALLOC_EVENTS
+struct AllocEvents {
+    dir: Option<String>,
+    files: HashMap<usize, std::io::BufWriter<std::fs::File>>,
+    counts: HashMap<usize, usize>,
+    max: usize,
+}
+impl AllocEvents {
+    fn record(&mut self, id: usize, n: usize, p: &Prog) {
+        let Some(dir) = &self.dir else { return };
+        if p.ssa.len() > 70 || ![1usize, 2, 3, 4, 5, 12].contains(&n) {
+            return;
+        }
+        let count = self.counts.entry(n).or_insert(0);
+        if *count > self.max {
+            return;
+        }
+        *count += p.ssa.len() + 1;
+        fn ev<const N: usize>(id: usize, p: &Prog) -> Vec<serde_json::Value> {
+            tapes::alloc_events::<N>(id, &p.ssa)
+        }
+        let evs = with_n!(n, ev(id, p));
+        let f = self.files.entry(n).or_insert_with(|| {
+            std::io::BufWriter::new(std::fs::File::create(format!("{dir}/alloc_n{n}.ndjson")).unwrap())
+        });
+        for e in evs {
+            writeln!(f, "{e}").unwrap();
+        }
+    }
+}
+
 fn main() {
     let args: Vec<String> = std::env::args().collect();
     let progs_path = &args[1];
+    let mut aev = AllocEvents { dir: std::env::var("VERIF_ALLOC_EVENTS").ok(), files: HashMap::new(), counts: HashMap::new(),
+        max: std::env::var("VERIF_ALLOC_EVENTS_MAX").ok().and_then(|s| s.parse().ok()).unwrap_or(100000) };
     let tier = &args[2];
     let mut w = std::io::BufWriter::new(std::fs::File::create(&args[3]).unwrap());
     let seed = seed_from_env();
@@ -258,6 +291,7 @@ fn main() {
             for &n in &ns {
                 let res = with_n!(n, compile_and_eval(&p, &pts));
                 emit(&mut w, id, "tlc", n, res, &ssa_ref, mode, Some(&p));
+                aev.record(id, n, &p);
                 id += 1;
             }
         }
@@ -278,6 +312,7 @@ fn main() {
         let pts = pgen::input_points(&mut inst.rng, mode, p.nvars, 4);
         let res = with_n!(n, compile_and_eval(&p, &pts));
         emit(&mut w, id, "long", n, res, &ssa_ref, mode, Some(&p));
+        aev.record(id, n, &p);
         id += 1;
     }
 
@@ -296,6 +331,7 @@ fn main() {
         let pts = pgen::input_points(&mut inst.rng, mode, p.nvars, 4);
         let res = with_n!(n, compile_and_eval(&p, &pts));
         emit(&mut w, id, "same", n, res, &ssa_ref, mode, Some(&p));
+        aev.record(id, n, &p);
         id += 1;
     }
 
@@ -399,6 +435,9 @@ fn main() {
         }
     }
     w.flush().unwrap();
+    for f in aev.files.values_mut() {
+        f.flush().unwrap();
+    }
     eprintln!("c01: {id} cases");
     let _ = bits(0.0);
 }
